@@ -61,8 +61,21 @@ fn guid_start_from_certificate(identity_cert: &Certificate) -> SecurityResult<[u
 
 fn validate_remote_guid(
   remote_guid: GUID,
+  expected_guid_prefix: GuidPrefix,
   remote_identity_cert: &Certificate,
 ) -> SecurityResult<()> {
+  // The participant data inside the handshake message has to be that of the
+  // participant this handshake was started with (validate_remote_identity).
+  // Otherwise any holder of a valid identity certificate could complete the
+  // handshake in the name of another participant's GUID.
+  if remote_guid.prefix != expected_guid_prefix {
+    return Err(create_security_error_and_log!(
+      "GUID prefix {:?} in the handshake message is not that of the remote participant {:?}",
+      remote_guid.prefix,
+      expected_guid_prefix
+    ));
+  }
+
   let actual_guid_start = &remote_guid.prefix.as_ref()[0..6];
   let expected_guid_start = guid_start_from_certificate(remote_identity_cert).map_err(|e| {
     create_security_error_and_log!("Could not determine the expected GUID start: {e}")
@@ -241,6 +254,7 @@ impl Authentication for AuthenticationBuiltin {
     let random_bytes3 = self.generate_random_32_bytes()?;
 
     let self_remote_info = RemoteParticipantInfo {
+      guid_prefix: adjusted_guid.prefix,
       identity_certificate_opt: None,
       signed_permissions_xml_opt: None,
       handshake: HandshakeInfo {
@@ -376,7 +390,7 @@ impl Authentication for AuthenticationBuiltin {
     let remote_identity_handle = self.get_new_identity_handle();
 
     let remote_info = RemoteParticipantInfo {
-      //guid_prefix: remote_participant_guidp,
+      guid_prefix: remote_participant_guidp,
       //identity_token: remote_identity_token,
       identity_certificate_opt: None,   // Not yet available
       signed_permissions_xml_opt: None, // Not yet available
@@ -547,7 +561,12 @@ impl Authentication for AuthenticationBuiltin {
         )
       })?;
 
-    validate_remote_guid(remote_pdata.participant_guid, &cert1).map_err(|e| {
+    validate_remote_guid(
+      remote_pdata.participant_guid,
+      remote_info.guid_prefix,
+      &cert1,
+    )
+    .map_err(|e| {
       create_security_error_and_log!("Remote GUID does not comply with the spec: {e}")
     })?;
 
@@ -741,7 +760,12 @@ impl Authentication for AuthenticationBuiltin {
             )
           })?;
 
-        validate_remote_guid(remote_pdata.participant_guid, &cert2).map_err(|e| {
+        validate_remote_guid(
+          remote_pdata.participant_guid,
+          remote_info.guid_prefix,
+          &cert2,
+        )
+        .map_err(|e| {
           create_security_error_and_log!("Remote GUID does not comply with the spec: {e}")
         })?;
 
@@ -1166,7 +1190,7 @@ iHhbVPRB9Uxts9CwglxYgZoUdGUAxreYIIaLO4yLqw==
     let invalid_guid = GUID::dummy_test_guid(EntityKind::PARTICIPANT_BUILT_IN);
     let some_certificate = Certificate::from_pem(cert_pem).unwrap();
 
-    let validation_res = validate_remote_guid(invalid_guid, &some_certificate);
+    let validation_res = validate_remote_guid(invalid_guid, invalid_guid.prefix, &some_certificate);
 
     assert!(
       validation_res.is_err(),
